@@ -96,6 +96,7 @@ func checkC08(c *Ctx) {
 	checkLoopTotality(c, "C08.R6.loop-totality", gen, "generator", 20, generatorLoopExits)
 	checkArgumentRoles(c, "C08.R7.argument-roles", gen, "generator", 10)
 	checkGenOptsNotCopied(c, "C08.R4.options-shared", gen)
+	checkStructLiterals(c, "C08.R7.builder-fields", gen, "generator", []string{"Builder", "Generator", "Context"}, generatorFieldsNotSet, 3)
 	checkRangeFilters(c, "C08.R6.range-filters", ev, reviewedRangeFilters, 25)
 	checkOperationIdentity(c, gen)
 	checkOperationDedup(c, gen)
@@ -624,7 +625,6 @@ var generatorLoopExits = map[string]string{
 	"generator.sortedResponses › loop over spec.Response #1 › conditional store #1":                 "‹int› > 0 ⇒ status codes only: the default response (code ≤ 0) is handled separately",
 }
 
-
 // checkGenOptsNotCopied: GenOpts carries the registry of files written so far (the collision
 // check) and is handed around by pointer; a copy made before the registry exists gets a registry of
 // its own, and two objects mangled to one file name are no longer told apart.
@@ -691,4 +691,13 @@ func checkGenOptsNotCopied(c *Ctx, rule string, gen *packages.Package) {
 			return true
 		})
 	}
+}
+
+// generatorFieldsNotSet: literals of generator structs that leave out a field other literals set, reviewed.
+var generatorFieldsNotSet = map[string]string{
+	"codeGenOpBuilder.buildOperationSchema › schemaGenContext.Discrimination":       "schemas inlined in operations are not discriminated types",
+	"codeGenOpBuilder.buildOperationSchema › schemaGenContext.WantsRootedErrorPath": "deviant, left alone: the --rooted-error-path option is not carried into schemas inlined in operations; it changes the path printed in validation errors only",
+	"codeGenOpBuilder.buildOperationSchema › schemaGenContext.WithXML":              "deviant, left alone: the --with-xml option is not carried into schemas inlined in operations; it adds xml struct tags only",
+	"schemaGenContext.makeNewStruct › schemaGenContext.WantsRootedErrorPath":        "deviant, left alone: not carried into the structs generated for anonymous objects; error paths only",
+	"schemaGenContext.makeNewStruct › schemaGenContext.WithXML":                     "deviant, left alone: not carried into the structs generated for anonymous objects; xml struct tags only",
 }
